@@ -98,7 +98,7 @@ BOUNDS = {"quick": {"options": "all of DEFAULT_OPTS",
           "thorough": {"options": "all of DEFAULT_OPTS", "implication_product": "2^17 x {cli-or-file, env, file}",
                        "mixed_placement": "4^8 over offline + 7 vetoed requests", "bool_spelling_product": True,
                        "plus": "everything of the quick tier except the QA/QB source sub-products"}}
-CAP_S = {"quick": 150, "thorough": 1500}
+CAP_S = {"quick": 240, "thorough": 1800}
 
 FILE_TRUE = ["1", "yes", "true", "on"]
 FILE_FALSE = ["0", "no", "false", "off"]
@@ -357,7 +357,11 @@ def structural(cfg, S):
 
 
 def sub(s, S):
-    return s.replace("{S}", S) if isinstance(s, str) else s
+    if not isinstance(s, str):
+        return s
+    if "{D}" in s:
+        s = s.replace("{D}", meta()["conf"]["default"])       # the built-in default path of `conf`
+    return s.replace("{S}", S)
 
 
 def env_key(name):
@@ -525,6 +529,10 @@ def gen_prec(name, tier):
                     add(f, e, [flag, P])
         add(None, "e.conf", None, noconf=True)
         add(None, None, None, noconf=True)
+        # the command line names the built-in default path (which does not exist) while the environment names another
+        for flag in mo["opt"]:
+            add(None, "e.conf", [flag, "{D}"], noconf=True)
+            add(None, None, [flag, "{D}"], noconf=True)
         return cases
 
     has_cli = bool(mo["opt"])
